@@ -830,6 +830,13 @@ func c36Run(line string) string {
 		}
 		switch f[0] {
 		case "imp":
+			ne, nc := false, false
+			if len(f) > 5 && f[len(f)-1] == "nc" {
+				nc, f = true, f[:len(f)-1]
+			}
+			if len(f) > 5 && f[len(f)-1] == "ne" {
+				ne, f = true, f[:len(f)-1]
+			}
 			if len(f) != 5 && !(len(f) == 8 && f[5] == "sc") && !(len(f) == 9 && f[5] == "fc") {
 				return "bad-op"
 			}
@@ -855,7 +862,7 @@ func c36Run(line string) string {
 			if b.state != func() c36State { s := n.blks[parent].state; s[k] = v; return s }() {
 				return "bad-op"
 			}
-			results = append(results, n.imp(b, k, v, f[5:]))
+			results = append(results, n.imp(b, k, v, f[5:], ne, nc))
 		case "fin":
 			if len(f) != 4 {
 				return "bad-op"
@@ -867,6 +874,54 @@ func c36Run(line string) string {
 				return "bad-op"
 			}
 			results = append(results, n.fin(id, uint64(round), uint64(setID)))
+		case "gfin":
+			if len(f) != 4 {
+				return "bad-op"
+			}
+			id, ok1 := c36Atoi(f[1], 0, c36MaxID)
+			round, ok2 := c36Atoi(f[2], 0, 99)
+			setID, ok3 := c36Atoi(f[3], 0, 99)
+			if !(ok1 && ok2 && ok3) {
+				return "bad-op"
+			}
+			results = append(results, n.gfin(id, uint64(round), uint64(setID)))
+		case "just":
+			if len(f) != 2 {
+				return "bad-op"
+			}
+			id, ok := c36Atoi(f[1], 0, c36MaxID)
+			if !ok {
+				return "bad-op"
+			}
+			hash := common.Hash{0xff, byte(id)}
+			if b, known := n.blks[id]; known {
+				hash = b.header.Hash()
+			}
+			if err := n.block.SetJustification(hash, []byte{0x1a, byte(id)}); err != nil {
+				results = append(results, "e-just")
+			} else {
+				results = append(results, "ok")
+			}
+		case "pv", "pc":
+			if len(f) != 3 {
+				return "bad-op"
+			}
+			round, ok1 := c36Atoi(f[1], 0, 99)
+			setID, ok2 := c36Atoi(f[2], 0, 99)
+			if !(ok1 && ok2) {
+				return "bad-op"
+			}
+			var err error
+			if f[0] == "pv" {
+				err = n.grandpa.SetPrevotes(uint64(round), uint64(setID), []types.GrandpaSignedVote{})
+			} else {
+				err = n.grandpa.SetPrecommits(uint64(round), uint64(setID), []types.GrandpaSignedVote{})
+			}
+			if err != nil {
+				results = append(results, "e-votes")
+			} else {
+				results = append(results, "ok")
+			}
 		case "lr":
 			if len(f) != 2 {
 				return "bad-op"
@@ -883,6 +938,9 @@ func c36Run(line string) string {
 		default:
 			return "bad-op"
 		}
+	}
+	if n.nondet {
+		return "nondet"
 	}
 	logEntries := n.rec.log
 	var recs []string
@@ -919,6 +977,12 @@ func c36Gen(r *vhRng) string {
 			case 2:
 				op += fmt.Sprintf(" fc %d %d %d", r.Intn(3), r.Intn(3), 1+r.Intn(9))
 			}
+			if r.Chance(1, 3) {
+				op += " ne"
+			}
+			if r.Chance(1, 4) {
+				op += " nc"
+			}
 			ops = append(ops, op)
 			blks = append(blks, blk{nextID, p.id, p.num + 1})
 			nextID++
@@ -940,9 +1004,20 @@ func c36Gen(r *vhRng) string {
 			if r.Chance(1, 10) {
 				rr = 0
 			}
-			ops = append(ops, fmt.Sprintf("fin %d %d %d", b.id, rr, s))
+			kind := "fin"
+			if r.Chance(1, 3) {
+				kind = "gfin"
+			}
+			ops = append(ops, fmt.Sprintf("%s %d %d %d", kind, b.id, rr, s))
 		case c < 9:
-			ops = append(ops, fmt.Sprintf("lr %d", round))
+			switch r.Intn(4) {
+			case 0:
+				ops = append(ops, fmt.Sprintf("just %d", blks[r.Intn(len(blks))].id))
+			case 1:
+				ops = append(ops, fmt.Sprintf("%s %d %d", []string{"pv", "pc"}[r.Intn(2)], round, setID))
+			default:
+				ops = append(ops, fmt.Sprintf("lr %d", round))
+			}
 		default: // re-import of an existing block or junk finalise
 			if r.Bool() || len(blks) < 2 {
 				ops = append(ops, fmt.Sprintf("fin %d %d %d", r.Intn(c36MaxID+1), round+1, setID))
